@@ -48,6 +48,8 @@ FIXED = [
   "while a dynamic macro was being recorded the loop blocked between key events and the blocked time was not counted into the recorded delays, so the replay was paced differently"),
  ("F14", "C10", "fix: switch boolean evaluation of a nested list as the last operand of a not",
   "`(and (not (and a b)) c)` with only c active evaluated to false: a nested operator list that is false as the last operand of a `not` (which is not at the end of the expression) made the `not` false"),
+ ("F20", "C12", "fix: defseq stores right-hand shift / ctrl / meta in the folded form",
+  "a defseq sequence written with `rsft` / `rctl` / `rmet` (or `RS-` / `RC-` / `RM-`) was accepted but could never be typed: the table stored the right-hand code, the run time folds to the left-hand code before the lookup (also seen by C11: name in defseq context)"),
 ]
 log = subprocess.check_output(["git", "-C", "/repo", "log", "--format=%h %s"]).decode().splitlines()
 out = []
